@@ -243,6 +243,7 @@ const (
 	sigUpdateUniqueLosesKey  = "C06/failed-op-partial-effect/update-unique-violation-loses-index-entry"
 	sigDeleteMissingDocPanic = "C06/panic/collection.Delete-of-missing-document-with-index"
 	sigIndexMissesConcurrent = "C06/index-ddl-vs-concurrent-writer/index-misses-document"
+	sigFailedMkindexKeepsDesc = "C06/failed-op-partial-effect/create-unique-index-violation-keeps-index-description"
 )
 
 // avoid reports whether the case asks to stay clear of the trigger of a listed finding
@@ -790,6 +791,11 @@ func (e *env) mutation(ac *actor, st Step) (bool, *hx.Failure) {
 			return false, nil
 		}
 	}
+	if ac.id != 0 && st.K == "mkindex" && exp.why == "duplicate tags" && e.avoid(sigFailedMkindexKeepsDesc) {
+		e.label("avoided:failing-unique-index-creation-in-txn")
+		e.note("%s mkindex %s skipped (switch: no failing unique index creation inside a transaction)", actorName(ac.id), st.F)
+		return false, nil
+	}
 	if st.K == "mkindex" && e.started && e.avoid(sigIndexMissesConcurrent) && (ac.id != 0 || e.openTxns() > 0) {
 		e.label("avoided:index-creation-concurrent-with-transactions")
 		e.note("%s mkindex %s skipped (switch: no index creation while a transaction is open)", actorName(ac.id), st.F)
@@ -873,6 +879,35 @@ func (e *env) mutation(ac *actor, st Step) (bool, *hx.Failure) {
 		}
 	}
 	if strings.HasSuffix(st.K, "index") {
+		// read the index list back inside the same actor
+		var m map[client.CollectionName][]client.IndexDescription
+		var err error
+		if ac.id == 0 {
+			m, err = e.n.DB.GetAllIndexes(e.ctx)
+		} else {
+			m, err = ac.txn.GetAllIndexes(e.ctx)
+		}
+		if err != nil {
+			return false, e.failf("C06/read-back-error/"+st.K, "GetAllIndexes after step %+v: %v", st, err)
+		}
+		if got, want := renderIndexes(m["Users"]), v.indexNames(); got != want {
+			cause := "effect-missing"
+			if !exp.apply {
+				cause = "failed-op-had-effect"
+				// diagnoser: createIndex saves the collection description before indexExistingDocs fails
+				after := v.clone()
+				after.idx[st.F] = st.U
+				if ac.id != 0 && st.K == "mkindex" && exp.why == "duplicate tags" && out.kind == "error" &&
+					strings.Contains(out.err, "violates unique index") && got == after.indexNames() {
+					return false, e.failf(sigFailedMkindexKeepsDesc,
+						"%s: step %+v failed (%s) but the index is now listed inside the transaction: [%s] (view before: %s)",
+						actorName(ac.id), st, out.err, got, e.render(v))
+				}
+			}
+			return false, e.failf("C06/read-back-differs/"+st.K+"/"+route+"/"+cause,
+				"%s: after step %+v (model: apply=%v %s; reported %s %s) the actor lists the indexes [%s], want [%s]",
+				actorName(ac.id), st, exp.apply, exp.why, out.kind, out.err, got, want)
+		}
 		return exp.apply, nil
 	}
 	// read the document back inside the same actor (touches only keys the mutation touched)
